@@ -11,20 +11,31 @@ from checks import common as C
 
 import pyclifford as pc
 
-RULE = ('cases = (stabilizer state of any rank 0<=r<=N and sign pattern, subsystem) with *all* 2^N subsystems per state, given both as index list '
-        'and as boolean mask; dense partial trace + eigenvalues for N<=5, rank formula |A| - dim G_A (own GF(2) elimination) for N<=10; '
+RULE = ('cases = (stabilizer state of any rank 0<=r<=N and sign pattern, subsystem) with *all* 2^N subsystems per state, given as index list, tuple, integer array, numpy boolean mask '
+        'and list of Python bools; dense partial trace + eigenvalues for N<=5, rank formula |A| - dim G_A (own GF(2) elimination) for N<=10; '
         'metamorphic: regenerated generating set, Clifford gate inside / outside the region; kernel z2rank vs reference rank; '
         'non-trivial = 0 < |A| < N and (state mixed or entropy >= 1); distinct = sha1 of (state, region)')
 ASSUMPTIONS = ['entropies are integers (bits); tolerance 1e-9', 'z2rank destroys its argument by documentation: only the return value is checked']
 
 
-def _ent(be, S, region, as_mask, N):
+FORMS = ['indices', 'mask', 'tuple', 'int-array', 'bool-list']
+
+
+def _ent(be, S, region, form, N):
+    """form: how the subsystem is handed over (all are accepted by the documented signature)."""
     Bk = B.backend(be)
-    if len(region) == 0:
-        arg = []
-    elif as_mask:
-        m = np.zeros(N, dtype=np.bool_); m[list(region)] = True
+    form = {False: 'indices', True: 'mask'}.get(form, form)
+    m = np.zeros(N, dtype=np.bool_); m[list(region)] = True
+    if len(region) == 0 and form in ('indices', 'tuple', 'int-array'):
+        arg = {'indices': [], 'tuple': (), 'int-array': np.array([], dtype=int)}[form]
+    elif form == 'mask':
         arg = m
+    elif form == 'bool-list':
+        arg = [bool(x) for x in m]
+    elif form == 'tuple':
+        arg = tuple(region)
+    elif form == 'int-array':
+        arg = np.array(list(region), dtype=np.int64)
     else:
         arg = list(region)
     snap = B.snapshot(S)
@@ -51,17 +62,15 @@ def f_entropy(case):
             if abs(d - exp) > 1e-9:
                 from harness.core import HarnessError
                 raise HarnessError('oracles disagree: formula %r dense %r' % (exp, d))
-        for as_mask in (False, True):
-            if be == 'torch' and as_mask:
-                continue
-            v = _ent(be, S, region, as_mask, N)
+        for form in (FORMS if be == 'np' else ['indices', 'tuple']):
+            v = _ent(be, S, region, form, N)
             check(abs(v - exp) < 1e-9, 'entropy(%s as %s) = %r expected %r; stabilizers %s r=%d' % (
-                region, 'mask' if as_mask else 'indices', v, exp, list(G.canonical()), r), 'entropy')
+                region, form, v, exp, list(G.canonical()), r), 'entropy')
         full[tuple(bits)] = exp
         if 0 < len(region) < N and (r > 0 or exp >= 1):
             nt_sub.append(idx)
     check(full[tuple([0] * N)] == 0 and full[tuple([1] * N)] == r, 'oracle sanity', 'oracle')
-    return {'nt': True, 'nt_sub': nt_sub, 'sub_evals': 2 ** N * (2 if be == 'np' else 1), 'labels': ['N=%d' % N, 'r=%d' % r, 'maxS=%d' % max(full.values())]}
+    return {'nt': True, 'nt_sub': nt_sub, 'sub_evals': 2 ** N * (5 if be == 'np' else 2), 'labels': ['N=%d' % N, 'r=%d' % r, 'maxS=%d' % max(full.values())]}
 
 
 def st_entropy(be, loN, hiN):
